@@ -230,6 +230,7 @@ var spOps = []spOp{
 	{"MmulS", [2]string{"n", "m"}, [2]string{"n", "m"}, [2]string{}, true, false, true},
 	{"MdivS", [2]string{"n", "m"}, [2]string{"n", "m"}, [2]string{}, true, false, true},
 	{"MSet", [2]string{"n", "m"}, [2]string{"n", "m"}, [2]string{}, false, false, true},
+	{"MEquals", [2]string{}, [2]string{"n", "m"}, [2]string{"n", "m"}, false, true, true},
 	{"MdotM", [2]string{"n", "m"}, [2]string{"n", "k"}, [2]string{"k", "m"}, false, false, false},
 	{"Outer", [2]string{"n", "m"}, [2]string{"n", ""}, [2]string{"m", ""}, false, false, false},
 	{"MdotV", [2]string{"n", ""}, [2]string{"n", "m"}, [2]string{"m", ""}, false, false, false},
@@ -419,6 +420,12 @@ func spRun(c spCase) (out spOut) {
 			} else {
 				out.Bool = 0
 			}
+		case "MEquals":
+			if ma.Equals(mb, float64(c.Eps)) {
+				out.Bool = 1
+			} else {
+				out.Bool = 0
+			}
 		case "MaddM":
 			mr.MaddM(ma, mb)
 		case "MsubM":
@@ -600,41 +607,9 @@ func (o *spObj) el(i, j int) *spEl {
 }
 
 var spKnownTable = []spKnownClass{
-	// matrix joint iterators: Ok() tests "some delivered VALUE != 0" instead of "some iterator delivered
-	// an element": an element of value 0 with a non-zero derivative ends the whole iteration; every
-	// position from there on is left as it was.
-	{"C03-MJOINT-DERIV0", func(c spCase, d spDiff) bool {
-		switch c.Op {
-		case "MaddM", "MsubM", "MmulM", "MmulS":
-		case "MdivS":
-			if float64(c.S.V) == 0 {
-				return false
-			}
-		default:
-			return false
-		}
-		r := c.recv()
-		if d.Obj != "r" || r == nil || r.St == 0 {
-			return false
-		}
-		for q := 0; q <= d.I; q++ {
-			re, ae, be, _, _, _ := c.at(q)
-			delivered, allZero := 0, true
-			for _, e := range []*spEl{re, ae, be} {
-				if e == nil || e.null() {
-					continue
-				}
-				delivered++
-				if float64(e.V) != 0 {
-					allZero = false
-				}
-			}
-			if delivered > 0 && allZero {
-				return true
-			}
-		}
-		return false
-	}},
+	// (C03-MJOINT-DERIV0 — matrix joint iterators ending the walk at an element of value 0 with a
+	// non-zero derivative — was fixed in /repo by e83c5e9 and its matcher removed: such a difference is
+	// a failure again; regression cases in corpus/C03/special.jsonl.)
 	// sparse VmulS / VdivS / MmulS / MdivS visit only the positions where the receiver or the operand has
 	// a non-null element; 0 * (NaN | +-Inf) and 0 / NaN are NaN in the dense path
 	{"C03-SCALAR-NONFINITE-ABSENT", func(c spCase, d spDiff) bool {
